@@ -227,6 +227,30 @@ Theorem C06_recursive_over_mutex_no_misuse_error : forall progs sched e,
 Proof. exact rmx_no_misuse_error. Qed.
 Print Assumptions C06_recursive_over_mutex_no_misuse_error.
 
+(* no unlock of the recursive mutex is lost: if nothing can move and the underlying mutex is free, nobody is blocked in
+   lock(); with balanced programs (a task that finished has released every level) a stuck state is a finished state;
+   and rmx_stuck is exactly "nothing can move": any other task changes the state with its next step *)
+Theorem C06_recursive_over_mutex_no_lost_unlock : forall progs sched,
+  let c := rmx_run sched progs in
+  rmx_stuck (fst c) (snd c) -> owner (gu (fst c)) = None ->
+  forall t, ~ rmx_blocked_in_lock (fst c) (snd c t) t.
+Proof. exact rmx_no_lost_unlock. Qed.
+Print Assumptions C06_recursive_over_mutex_no_lost_unlock.
+
+Theorem C06_recursive_over_mutex_stuck_balanced_all_done : forall progs sched,
+  let c := rmx_run sched progs in
+  rmx_stuck (fst c) (snd c) -> (forall t, rmx_finished (snd c t) -> gdepth (snd c t) = 0) ->
+  forall t, rmx_finished (snd c t).
+Proof. exact rmx_stuck_balanced_all_done. Qed.
+Print Assumptions C06_recursive_over_mutex_stuck_balanced_all_done.
+
+Theorem C06_recursive_over_mutex_enabled_unless_stuck : forall progs sched o t,
+  let c := rmx_run sched progs in
+  ~ rmx_finished (snd c t) -> ~ rmx_blocked_in_lock (fst c) (snd c t) t ->
+  rmx_tstep o t (fst c) (snd c t) <> (fst c, snd c t).
+Proof. exact rmx_enabled_unless_stuck_run. Qed.
+Print Assumptions C06_recursive_over_mutex_enabled_unless_stuck.
+
 (* ---- non-vacuity ---- *)
 (* three tasks: 0 locks, writes, yields inside the critical section, unlocks; 1 blocks in lock() and is
    handed the mutex; 2 try_locks while it is owned (false), later misuses unlock.  The run ends stuck
